@@ -40,6 +40,7 @@ TypeCanonicalizer::TypeCanonicalizer(SemanticModel* semaModel, const SyntaxTree*
     : SyntaxVisitor(tree)
     , semaModel_(semaModel)
     , tySpecNode_(nullptr)
+    , decltorNode_(nullptr)
     , diagReporter_(this)
 {
     const char* internals[] = { "__builtin_va_list" };
@@ -122,8 +123,20 @@ SyntaxVisitor::Action TypeCanonicalizer::visitTypedefName(const TypedefNameSynta
     return Action::Skip;
 }
 
+SyntaxToken TypeCanonicalizer::tokenToDiagnoseAt() const
+{
+    // A type may be reached through a declarator before any of its specifiers was visited
+    // (e.g. a parameter's type through the function type that lists it).
+    if (tySpecNode_)
+        return tySpecNode_->lastToken();
+    if (decltorNode_)
+        return decltorNode_->firstToken();
+    return SyntaxToken::invalid();
+}
+
 SyntaxVisitor::Action TypeCanonicalizer::visitDeclarator_COMMON(const DeclaratorSyntax* node)
 {
+    decltorNode_ = node;
     auto decl = semaModel_->declarationBy(node);
     PSY_ASSERT_2(decl, return Action::Quit);
     switch (decl->category()) {
@@ -274,12 +287,12 @@ const Type* TypeCanonicalizer::canonicalize(const Type* ty, const Scope* scope)
                     return tydef->introducedSynonymType();
                 }
                 //if (tree_->completeness() == TextCompleteness::Full)
-                diagReporter_.ExpectedTypedefDeclaration(tySpecNode_->lastToken());
+                diagReporter_.ExpectedTypedefDeclaration(tokenToDiagnoseAt());
             }
             else {
                 //if (tree_->completeness() == TextCompleteness::Full)
                 if (!internalTydefNameIdents_.count(tydefName))
-                    diagReporter_.TypeDeclarationNotFound(tySpecNode_->lastToken());
+                    diagReporter_.TypeDeclarationNotFound(tokenToDiagnoseAt());
             }
             return semaModel_->compilation()->canonicalErrorType();
         }
@@ -305,11 +318,11 @@ const Type* TypeCanonicalizer::canonicalize(const Type* ty, const Scope* scope)
                     return canonicalize(tagDecl->introducedNewType(), scope);
                 }
                 //if (tree_->completeness() == TextCompleteness::Full)
-                diagReporter_.TagTypeDoesNotMatchTagDeclaration(tySpecNode_->lastToken());
+                diagReporter_.TagTypeDoesNotMatchTagDeclaration(tokenToDiagnoseAt());
             }
             else {
                 //if (tree_->completeness() == TextCompleteness::Full)
-                diagReporter_.TypeDeclarationNotFound(tySpecNode_->lastToken());
+                diagReporter_.TypeDeclarationNotFound(tokenToDiagnoseAt());
             }
             return semaModel_->compilation()->canonicalErrorType();
         }
